@@ -358,7 +358,9 @@ pub fn gen_program_ext(rng: &mut Rng) -> (String, Option<String>, bool) {
     }
     // one program with subroutines in three keeps them in a file of its own
     if n_subs > 0 && !use_macro && rng.chance(1, 3) {
-        body.push_str("    .import * from \"lib.asm\"\n");
+        // the second file's name differs from the first one's by more than letter case - or only by that
+        let lib_name = *rng.pick(&["lib.asm", "lib.asm", "MAIN.ASM", "Main.asm"]);
+        body.push_str(&format!("    .import * from \"{}\"\n", lib_name));
         return (
             format!("{}.test \"t\" {{\n{}}}\n", top, body),
             Some(subs),
@@ -583,14 +585,19 @@ pub fn build_reference(program: &str, lib: Option<&str>, path: &str) -> Referenc
     build_reference_with(program, lib, path, &[])
 }
 
-fn lib_path() -> String {
-    format!("{}/lib.asm", WS)
+/// the path of the second source file: the name is the one main.asm imports
+fn lib_path_of(program: &str) -> String {
+    let name = program
+        .lines()
+        .find_map(|l| l.trim().strip_prefix(".import * from \"").and_then(|r| r.strip_suffix('"')))
+        .unwrap_or("lib.asm");
+    format!("{}/{}", WS, name)
 }
 
 fn sources(program: &str, lib: Option<&str>, path: &str) -> InMemoryParsingSource {
     let src = InMemoryParsingSource::new().add(path, program);
     match lib {
-        Some(l) => src.add(&lib_path(), l),
+        Some(l) => src.add(&lib_path_of(program), l),
         None => src,
     }
 }
@@ -736,7 +743,7 @@ impl Reference {
             return r.clone();
         }
         let (file_path, file_line) = if line >= LIB_BASE {
-            (lib_path(), line - LIB_BASE)
+            (lib_path_of(program), line - LIB_BASE)
         } else {
             (path.to_string(), line)
         };
@@ -897,7 +904,7 @@ impl<'a> Session<'a> {
     /// invocation.
     fn expected_marker(&mut self, pc: u16) -> Option<i64> {
         let f = self.reference.frame_of(pc)?;
-        let text: String = if f.path.ends_with("lib.asm") { self.case.lib.clone()? } else { self.case.program.clone() };
+        let text: String = if f.path == lib_path_of(&self.case.program) { self.case.lib.clone()? } else { self.case.program.clone() };
         let lines: Vec<&str> = text.lines().collect();
         let mut closed = 0usize;
         let mut l = f.line;
@@ -1489,7 +1496,7 @@ impl<'a> Session<'a> {
                 let source_path = if file == 0 {
                     self.path.clone()
                 } else {
-                    lib_path()
+                    lib_path_of(&self.case.program)
                 };
                 // keys of this source's breakpoints; the other source's breakpoints stay as they are
                 let keys: Vec<(usize, Option<usize>)> = plain
@@ -1717,7 +1724,7 @@ fn sim_disk(case: &Case) -> SimDisk {
     );
     d.add_file(format!("{}/main.asm", WS), case.program.as_bytes().to_vec());
     if let Some(lib) = &case.lib {
-        d.add_file(format!("{}/lib.asm", WS), lib.as_bytes().to_vec());
+        d.add_file(lib_path_of(&case.program), lib.as_bytes().to_vec());
     }
     d
 }
